@@ -730,7 +730,11 @@ def gen_bar_cases(ctx, rng, ncases, nwidths):
         env = gen_env(rng, BAR_BASE)
         near = [wopt - 1, wopt, wopt + 1] if wopt else []
         for W in pick_widths(rng, 1, nwidths, near=near):
-            out.append(gen_pre(rng, dict(kind="bar", spec=spec, W=W, env=env), 1))
+            case = gen_pre(rng, dict(kind="bar", spec=spec, W=W, env=env), 1)
+            if spec.get("pulse") and rng.random() < 0.5:
+                # an animated bar is one object drawn again and again, and its width may have grown meanwhile
+                case["pre"] = rng.choice([1, 5, 20, max(1, W // 2), max(1, W - 1), max(1, W - 21)])
+            out.append(case)
     return out
 
 
